@@ -235,17 +235,29 @@ Definition execute (fx : fixes) (rid : string) (is_default : bool) (st : setting
   | NoDecode => go u
   end.
 
-(** the whole way of one request: [dflt] = a default rule is configured (it has
-    setting `off`, no captures and no backend) *)
+(** FindRule + Execute on a request view: [dflt] = a default rule is configured (it
+    has setting `off`, no captures and no backend) *)
+Definition serve_view (fx : fixes) (rules : list rule) (dflt : bool) (u : hurl) : outcome :=
+  match find_rule fx rules u with
+  | Some c => execute fx (r_id (cd_rule c)) false (r_setting (cd_rule c)) (r_backend (cd_rule c)) u (cd_caps c)
+  | None => if dflt then execute fx "default" true Off None u [] else NoRule
+  end.
+
+(** the whole way of one request received by heimdall's own HTTP server *)
 Definition serve (fx : fixes) (rules : list rule) (dflt : bool) (host raw query : string) : outcome :=
   match view host raw query with
   | None => BadRequest
-  | Some u =>
-    match find_rule fx rules u with
-    | Some c => execute fx (r_id (cd_rule c)) false (r_setting (cd_rule c)) (r_backend (cd_rule c)) u (cd_caps c)
-    | None => if dflt then execute fx "default" true Off None u [] else NoRule
-    end
+  | Some u => serve_view fx rules dflt u
   end.
+
+(** the Envoy ext_authz entry point (grpcv3.NewRequestContext, since fix: commit
+    ae6db4f): the received path is the raw path as it is — no validation, no
+    EscapedPath round trip —, the path its decoding ("" if that fails) *)
+Definition view_envoy (host raw query : string) : hurl :=
+  {| u_scheme := "http"; u_host := host; u_path := unescape_or_empty raw; u_rawpath := raw; u_query := query |}.
+
+Definition serve_envoy (fx : fixes) (rules : list rule) (dflt : bool) (host raw query : string) : outcome :=
+  serve_view fx rules dflt (view_envoy host raw query).
 
 (** * equality tests for the evaluator *)
 
